@@ -318,12 +318,12 @@ Section ActsCrash.
   Qed.
 
   Theorem history_crash_ok : forall t0 (ops : list (op T)),
-    0 < t0 -> det_history T teqb hc hl hr (init_world Fine t0) ops ->
+    det_history T teqb hc hl hr (init_world Fine t0) ops ->
     Forall (fun o => match o with OSetTable _ | OSetHist _ _ => False | _ => True end) ops ->
     crash_ok (fold_left (fun w o => fst (apply_op w o)) ops (init_world Fine t0)).
   Proof.
-    intros t0 ops Ht0 Hd Hu. apply history_crash_ok_from; [|exact Hd|exact Hu].
-    split; [apply (InvProofs.c07_init T teqb hc); exact Ht0|].
+    intros t0 ops Hd Hu. apply history_crash_ok_from; [|exact Hd|exact Hu].
+    split; [apply (InvProofs.c07_init T teqb hc)|].
     split; [apply (hist_sound_init T teqb hc hl hr)|]. apply (C11Proofs.init_world_state_files_good T teqb).
   Qed.
 End ActsCrash.
